@@ -65,7 +65,7 @@ StepBA(e) ==
         ELSE bav' = nb /\ l' = l + 1 /\ Keep /\ UNCHANGED <<pl, arv, bsbuf, bswcur, bsrcur>>
 
 StepAR(e) ==
-    LET na == CASE e.op = "new" -> AR!ARInit [] e.op = "sset" -> AR!SASet(arv, e.a, e.b) [] e.op = "sfill" -> AR!SAFill(arv, e.a)
+    LET na == CASE e.op = "new" -> AR!ARInit [] e.op = "sset" -> AR!SASet(arv, e.a, e.b) [] e.op \in {"sfill", "snew"} -> AR!SAFill(arv, e.a)
                 [] e.op = "sclear" -> AR!SAClear(arv) [] e.op \in {"demplace", "dpush", "dpushm"} -> AR!DAEmplace(arv, e.a) [] e.op = "dclear" -> AR!DAClear(arv)
                 [] e.op = "bemplace" -> AR!DBEmplace(arv, e.a) [] e.op = "bclear" -> AR!DBClear(arv) [] e.op = "dappend" -> AR!DAAppend(arv)
                 [] e.op = "dchain" -> AR!DAChain(arv, e.a, e.b) [] e.op = "dchaina" -> AR!DAChainArr(arv, e.a)
